@@ -63,6 +63,16 @@ type QDef struct {
 	// spillover configured (withSpillover = true in every quota object; the
 	// spill-over counter itself is never written on this tree)
 	Spill bool `json:"spillover,omitempty"`
+	// monthly_renewal block on this quota (decoded and validated; on the tree the
+	// model describes it is never handed to the strategy: no effect)
+	Renew *Renew `json:"monthly_renewal,omitempty"`
+}
+
+type Renew struct {
+	Day    int    `json:"day"`
+	Hour   int    `json:"hour"`
+	Minute int    `json:"minute"`
+	TZ     string `json:"timezone"` // UTC | Local (the validator allows nothing else)
 }
 
 func (q QDef) wsec() int64 {
@@ -73,6 +83,8 @@ func (q QDef) wsec() int64 {
 		return 3600 * q.Ival
 	case "day":
 		return 86400 * q.Ival
+	case "month":
+		return 30 * 86400 * q.Ival // QuotaLimit.ParseWindow: a month is 30 days
 	}
 	return q.Ival
 }
@@ -102,6 +114,22 @@ type Case struct {
 	Reqs   []Req  `json:"requests"`
 	Steps  []Step `json:"steps"`
 	Seq    bool   `json:"one_at_a_time"` // res: the schedule is limiter calls one after the other
+	// the mock clock when the quota resources / the engine are built (0 = the
+	// instant of the first step); a monthly renewal is scheduled from there
+	Built int64 `json:"built_ns,omitempty"`
+	// kind par: see par.go
+	Par *Par `json:"overlap,omitempty"`
+}
+
+// the clock reading at which the resources of the case are built
+func (k *Case) builtAt() int64 {
+	if k.Built != 0 {
+		return k.Built
+	}
+	if len(k.Steps) > 0 {
+		return k.Steps[0].Now
+	}
+	return baseSec * sec
 }
 
 // ---------------------------------------------------------------- environment
@@ -142,6 +170,9 @@ type levelClock struct {
 }
 
 func (l *levelClock) Now() time.Time {
+	if g := curGate.Load(); g != nil {
+		g.reading() // par.go: a clock reading of the parked transaction is a yield point
+	}
 	if l.active {
 		var pcs [4]uintptr
 		n := runtime.Callers(2, pcs[:])
@@ -193,7 +224,10 @@ func quotaYAML(f []QDef) string {
 		if q.Spill {
 			b.WriteString("        spillover:\n          max: 2\n")
 		}
-		if anySpill && !q.Custom {
+		if q.Renew != nil {
+			fmt.Fprintf(b, "        monthly_renewal:\n          day: %d\n          hour: %d\n          minute: %d\n          timezone: %s\n",
+				q.Renew.Day, q.Renew.Hour, q.Renew.Minute, q.Renew.TZ)
+		} else if anySpill && !q.Custom {
 			// the validator wants a monthly renewal next to a spill-over (the
 			// constructors of fixedWindow never read it)
 			b.WriteString("        monthly_renewal:\n          day: 1\n          hour: 0\n          minute: 0\n          timezone: UTC\n")
@@ -314,72 +348,90 @@ func onRequest(k *Case, r Req, q int) lunar_messages.OnRequest {
 
 // ---------------------------------------------------------------- execution
 
-func execRes(k *Case) {
+// the real quota resource objects of a case, built at k.builtAt()
+type resEnv struct {
+	quotas    map[int]public_types.QuotaResourceI
+	streamsOf []public_types.APIStreamI
+}
+
+func buildRes(k *Case) *resEnv {
 	caseDirs(k.Forest, false)
+	setClock(k.builtAt())
 	rm, err := resources.NewResourceManagement()
 	must(err)
-	quotas := map[int]public_types.QuotaResourceI{}
+	e := &resEnv{quotas: map[int]public_types.QuotaResourceI{}}
 	for _, q := range k.Forest {
 		qo, err := rm.GetQuota(fmt.Sprintf("q%d", q.ID), "")
 		must(err)
-		quotas[q.ID] = qo
+		e.quotas[q.ID] = qo
 	}
-	streamsOf := make([]public_types.APIStreamI, len(k.Reqs))
+	e.streamsOf = make([]public_types.APIStreamI, len(k.Reqs))
 	for i, r := range k.Reqs {
-		streamsOf[i] = stream_types.NewRequestAPIStream(onRequest(k, r, 1), shared)
+		e.streamsOf[i] = stream_types.NewRequestAPIStream(onRequest(k, r, 1), shared)
 	}
+	return e
+}
+
+// one step on the real objects (the clock is set by the caller)
+func (e *resEnv) do(s *Step) {
+	qo := e.quotas[s.Q]
+	var st public_types.APIStreamI
+	if s.Kind != "resetin" && s.Kind != "scrape" {
+		st = e.streamsOf[s.R]
+	}
+	s.Out = "none"
+	switch s.Kind {
+	case "inc":
+		if err := qo.Inc(st); err != nil {
+			s.Out = "err"
+		}
+	case "allowed":
+		ok, err := qo.Allowed(st)
+		s.Out = strconv.FormatBool(ok)
+		if err != nil {
+			s.Out = "err"
+		}
+	case "dec":
+		if err := qo.Dec(st); err != nil {
+			s.Out = "err"
+		}
+	case "resetin":
+		qo.ResetIn()
+	case "scrape":
+		s.Out = doScrape(e.quotas)
+	case "kinc":
+		r, ok := quotaresource.VerifC01KeyInc(qo, st)
+		s.Out = r
+		if !ok {
+			s.Out = "err"
+		}
+	case "kallowed":
+		b, ok := quotaresource.VerifC01KeyAllowed(qo, st)
+		s.Out = strconv.FormatBool(b)
+		if !ok {
+			s.Out = "err"
+		}
+	case "kdec":
+		if !quotaresource.VerifC01KeyDec(qo, st) {
+			s.Out = "err"
+		}
+	default:
+		panic("bad step kind " + s.Kind)
+	}
+}
+
+func execRes(k *Case) {
+	e := buildRes(k)
 	for i := range k.Steps {
 		s := &k.Steps[i]
 		setClock(s.Now)
-		qo := quotas[s.Q]
-		var st public_types.APIStreamI
-		if s.Kind != "resetin" && s.Kind != "scrape" {
-			st = streamsOf[s.R]
-		}
-		s.Out = "none"
-		switch s.Kind {
-		case "inc":
-			if err := qo.Inc(st); err != nil {
-				s.Out = "err"
-			}
-		case "allowed":
-			ok, err := qo.Allowed(st)
-			s.Out = strconv.FormatBool(ok)
-			if err != nil {
-				s.Out = "err"
-			}
-		case "dec":
-			if err := qo.Dec(st); err != nil {
-				s.Out = "err"
-			}
-		case "resetin":
-			qo.ResetIn()
-		case "scrape":
-			s.Out = doScrape(quotas)
-		case "kinc":
-			r, ok := quotaresource.VerifC01KeyInc(qo, st)
-			s.Out = r
-			if !ok {
-				s.Out = "err"
-			}
-		case "kallowed":
-			b, ok := quotaresource.VerifC01KeyAllowed(qo, st)
-			s.Out = strconv.FormatBool(b)
-			if !ok {
-				s.Out = "err"
-			}
-		case "kdec":
-			if !quotaresource.VerifC01KeyDec(qo, st) {
-				s.Out = "err"
-			}
-		default:
-			panic("bad step kind " + s.Kind)
-		}
+		e.do(s)
 	}
 }
 
 func execEng(k *Case) {
 	caseDirs(k.Forest, true)
+	setClock(k.builtAt())
 	st, err := streams.NewStream()
 	must(err)
 	must(st.Initialize())
@@ -476,30 +528,55 @@ func coqOut(s string) string {
 }
 
 func coqRes(k *Case) string {
-	acts := c.MapList(k.Steps, func(s Step) string {
+	var acts, outs []string
+	// renewal instants: where the clock of a step first lies past the instant a
+	// configured block would renew at (re-armed from that reading); no effect in
+	// the model (Events.renew RInert)
+	next := map[int]int64{}
+	for _, q := range k.Forest {
+		if q.Renew != nil {
+			next[q.ID] = renewAt(k.builtAt(), *q.Renew)
+		}
+	}
+	for i, s := range k.Steps {
+		for _, q := range k.Forest {
+			if t, ok := next[q.ID]; ok && s.Now > t {
+				acts = append(acts, fmt.Sprintf("ERenew %s %s", c.Z(int64(q.ID)), c.Z(s.Now)))
+				outs = append(outs, "ONone")
+				next[q.ID] = renewAt(s.Now, *q.Renew)
+			}
+		}
+		if k.Par != nil && k.Par.stores[i] {
+			// the parked transaction is released and stores the group object it built
+			acts = append(acts, fmt.Sprintf("EStore %s %s", c.Z(int64(s.Q)), coqReq(k.Reqs[s.R])))
+			outs = append(outs, "ONone")
+		}
 		q := c.Z(int64(s.Q))
+		var a string
 		switch s.Kind {
 		case "scrape":
-			return fmt.Sprintf("MScrape %s", c.Z(s.Now))
+			a = fmt.Sprintf("MScrape %s", c.Z(s.Now))
 		case "inc":
-			return fmt.Sprintf("MAct (Inc %s %s %s)", q, coqReq(k.Reqs[s.R]), c.Z(s.Now))
+			a = fmt.Sprintf("MAct (Inc %s %s %s)", q, coqReq(k.Reqs[s.R]), c.Z(s.Now))
 		case "allowed":
-			return fmt.Sprintf("MAct (Allowed %s %s)", q, coqReq(k.Reqs[s.R]))
+			a = fmt.Sprintf("MAct (Allowed %s %s)", q, coqReq(k.Reqs[s.R]))
 		case "dec":
-			return fmt.Sprintf("MAct (Dec %s %s)", q, coqReq(k.Reqs[s.R]))
+			a = fmt.Sprintf("MAct (Dec %s %s)", q, coqReq(k.Reqs[s.R]))
 		case "resetin":
-			return fmt.Sprintf("MAct (ResetIn %s %s)", q, c.Z(s.Now))
+			a = fmt.Sprintf("MAct (ResetIn %s %s)", q, c.Z(s.Now))
 		case "kinc":
-			return fmt.Sprintf("MAct (KInc %s %s %s)", q, coqReq(k.Reqs[s.R]), c.Z(s.Now))
+			a = fmt.Sprintf("MAct (KInc %s %s %s)", q, coqReq(k.Reqs[s.R]), c.Z(s.Now))
 		case "kallowed":
-			return fmt.Sprintf("MAct (KAllowed %s %s)", q, coqReq(k.Reqs[s.R]))
+			a = fmt.Sprintf("MAct (KAllowed %s %s)", q, coqReq(k.Reqs[s.R]))
 		case "kdec":
-			return fmt.Sprintf("MAct (KDec %s %s)", q, coqReq(k.Reqs[s.R]))
+			a = fmt.Sprintf("MAct (KDec %s %s)", q, coqReq(k.Reqs[s.R]))
+		default:
+			panic("kind")
 		}
-		panic("kind")
-	})
-	outs := c.MapList(k.Steps, func(s Step) string { return coqOut(s.Out) })
-	return c.Tuple(coqForest(k.Forest), acts, outs)
+		acts = append(acts, "EAct ("+a+")")
+		outs = append(outs, coqOut(s.Out))
+	}
+	return c.Tuple(coqForest(k.Forest), c.List(acts), c.List(outs))
 }
 
 func reqSteps(k *Case) []Step {
@@ -756,6 +833,9 @@ func genForest(r *c.Rng, style int) []QDef {
 		}
 		q.Custom = r.Chance(1, 6)
 		q.Spill = r.Chance(1, 6)
+		if r.Chance(1, 9) {
+			q.Renew = &Renew{Day: c.Pick(r, []int{1, 1, 2}), Hour: c.Pick(r, []int{0, 0, 13}), TZ: c.Pick(r, []string{"UTC", "UTC", "Local"})}
+		}
 		if q.Parent != 0 && r.Chance(1, 8) {
 			// allocation_percentage: the parent's strategy with max scaled (30% of 1-3 = 0)
 			p := f[q.Parent-1]
@@ -818,6 +898,25 @@ type clockGen struct {
 	cur     int64
 	anchors []int64 // whole seconds at which a window may have started
 	ws      []int64 // window lengths (seconds) of the forest
+	extra   []int64 // other instants worth reading the clock at (a renewal instant +-1 ns)
+}
+
+// a forest with a monthly_renewal block: build the resources about a month
+// before the history, so that the first renewal instant falls into it
+func aimRenewal(k *Case, g *clockGen) {
+	var rn *Renew
+	for _, q := range k.Forest {
+		if q.Renew != nil {
+			rn = q.Renew
+		}
+	}
+	if rn == nil {
+		return
+	}
+	target := g.cur + int64(g.r.Range(0, 3))*sec + c.Pick(g.r, []int64{0, 1, 500_000_000})
+	b0 := target - 31*86400*sec
+	k.Built = b0 - (renewAt(b0, *rn) - target)
+	g.extra = []int64{target - 1, target, target + 1, target + 300_000_000}
 }
 
 func newClockGen(r *c.Rng, f []QDef) *clockGen {
@@ -863,6 +962,9 @@ func (g *clockGen) next(first bool) int64 {
 			}
 			add(a*sec + sec - 1)
 		}
+		for _, t := range g.extra {
+			add(t)
+		}
 	}
 	if len(cands) == 0 {
 		cands = []int64{g.cur, g.cur + int64(r.Intn(int(sec))), nextSec}
@@ -892,6 +994,7 @@ func genRes(r *c.Rng) Case {
 		}
 	}
 	g := newClockGen(r, k.Forest)
+	aimRenewal(&k, g)
 	n := r.Range(4, 14)
 	k.Seq = r.Chance(1, 4) || style != 0 && r.Chance(1, 3)
 	first := true
@@ -966,6 +1069,7 @@ func genEng(r *c.Rng) Case {
 	n := r.Range(3, 9)
 	k.Reqs = genReqs(r, n, style, k.Forest)
 	g := newClockGen(r, k.Forest)
+	aimRenewal(&k, g)
 	// most requests go to one or two quotas so that windows fill up
 	fav := c.Pick(r, k.Forest).ID
 	if style != 0 {
@@ -1235,6 +1339,17 @@ func run(o *c.Out, k Case) {
 		} else {
 			hit = monitorCaseSched(&k)
 		}
+	case "par":
+		execPar(&k)
+		suite = "res"
+		idx = o.Case("res", coqRes(k.linear()), k, nontrivial(&k))
+		hit = monitorCasePar(&k)
+		o.Count("par=parked-in:" + k.Par.ParkedIn)
+		for _, w := range []string{"finished while", "waits for", "neither finished", "not-parked", "did not finish"} {
+			if strings.Contains(k.Par.Notes, w) {
+				o.Count("par=" + strings.ReplaceAll(w, " ", "-"))
+			}
+		}
 	case "eng":
 		execEng(&k)
 		idx = o.Case("eng", coqEng(&k), k, nontrivial(&k))
@@ -1246,7 +1361,13 @@ func run(o *c.Out, k Case) {
 	default:
 		panic("bad case kind " + k.Kind)
 	}
-	o.Count("suite=" + suite)
+	o.Count("suite=" + k.Kind)
+	for _, q := range k.Forest {
+		if q.Renew != nil {
+			o.Count("forest=with-monthly-renewal")
+			break
+		}
+	}
 	o.Count(fmt.Sprintf("quotas=%d", len(k.Forest)))
 	o.Count(fmt.Sprintf("steps=%02d", len(k.Steps)))
 	depth := 0
@@ -1263,7 +1384,7 @@ func run(o *c.Out, k Case) {
 	o.Count(fmt.Sprintf("depth=%d", depth))
 	for _, s := range k.Steps {
 		o.Count("out=" + s.Out)
-		if k.Kind == "res" {
+		if k.Kind == "res" || k.Kind == "par" {
 			o.Count("step=" + s.Kind)
 		}
 	}
@@ -1280,7 +1401,7 @@ func run(o *c.Out, k Case) {
 func main() {
 	zerolog.SetGlobalLevel(zerolog.Disabled)
 	o := c.NewOut("C01")
-	o.DeclareSuite("res", "From Verif Require Import C01.Model C01.Metrics.", "case_resm", "run_resm")
+	o.DeclareSuite("res", "From Verif Require Import C01.Model C01.Metrics C01.Events.", "case_rese", "run_rese")
 	o.DeclareSuite("eng", "From Verif Require Import C01.Model C01.Metrics.", "case_engm", "run_engm")
 	o.DeclareSuite("engt", "From Verif Require Import C01.Model.", "case_engt", "run_engt")
 	o.Rule("res: random quota forests (1-4 quotas, depth <= 3, max 1-4, window 1-3 s or 1 min, 0-1 grouping header per quota, " +
@@ -1293,6 +1414,11 @@ func main() {
 		"(between Inc and Allowed of a transaction, anywhere else) and of the eng histories (between requests), clock aimed at window ends; " +
 		"corpus: collection in a full window of a group older than one window then more traffic, collection at the window end +-1 ns between Inc and Allowed, " +
 		"drop (Dec/KDec) of a request let through late in window 1 after another request opened window 2, then max more requests (alone, grouped, as child, as parent); " +
+		"monthly_renewal blocks (on the quota, on every quota, on the ancestors only; day/hour/minute/UTC|Local) with the resources built a month before the history: " +
+		"windows of 3-4 months / 75-100 days crossed by two renewal instants with max+1 requests before, between and after, short windows (2-3 s, 1 min/h/day) pinned by the full window before " +
+		"(refusal at its last ns) with requests +1 ns / +0.3 s after the renewal instant, random forests with a block and clock readings +-1 ns around the instant; " +
+		"par (evaluated in suite res on the observed completion order): a first-ever transaction of a group parked at its n-th clock reading (group creation, AtomicIncWindow, the same at the parent) " +
+		"while 1-2 other first transactions of the same / another group are attempted with a bounded wait, then the verdicts in either order, then the window filled up; " +
 		"distinct = distinct (forest, schedule, observed verdicts); non-trivial = contains a refusal and, at least 1 s later, an admission on the same quota id")
 	repo := os.Getenv("VERIF_REPO")
 	if repo == "" {
@@ -1324,16 +1450,30 @@ func main() {
 	for _, k := range dropCases() {
 		run(o, k)
 	}
+	for _, k := range renewalCases() {
+		run(o, k)
+	}
+	for _, k := range parCases() {
+		run(o, k)
+	}
+	rn := o.Rng.Fork(5)
+	for i := 0; i < o.Scale(40, 1500, 600); i++ {
+		run(o, genRenewal(rn))
+	}
+	rp := o.Rng.Fork(6)
+	for i := 0; i < o.Scale(40, 1000, 600); i++ {
+		run(o, genPar(rp))
+	}
 	rd := o.Rng.Fork(4)
 	for i := 0; i < o.Scale(60, 1500, 600); i++ {
 		run(o, genDrop(rd))
 	}
 	rr := o.Rng.Fork(1)
-	for i := 0; i < o.Scale(1100, 20000, 6000); i++ {
+	for i := 0; i < o.Scale(850, 20000, 6000); i++ {
 		run(o, genRes(rr))
 	}
 	re := o.Rng.Fork(2)
-	for i := 0; i < o.Scale(450, 4000, 2500); i++ {
+	for i := 0; i < o.Scale(400, 4000, 2500); i++ {
 		run(o, genEng(re))
 	}
 	for _, k := range levelEdgeCases() {
